@@ -6,7 +6,7 @@
 From Coq Require Import List ZArith Bool.
 From Coq Require Floats.
 From Coq Require Import Reals.
-From LN Require Import C07_Defs C07_Statements C07_Proofs C07_MT C07_CG C07_Real.
+From LN Require Import C07_Defs C07_Statements C07_Proofs C07_MT C07_CG C07_Budget C07_Real.
 Import ListNotations.
 Import PrimFloat.PrimFloatNotations.   (* notations only: the primitives print as PrimFloat.* in Print Assumptions *)
 Local Open Scope float_scope.
@@ -248,6 +248,46 @@ Theorem C07_cgdescent_exits_reachable :
    ok r = true /\ cg_exit_flags (prm_default 128) p0_slope r = Some [true; false; true; false; true; false; true; false]).
 Proof. exact s_cg_exits_reachable. Qed.
 Print Assumptions C07_cgdescent_exits_reachable.
+
+(* ---------- the evaluation budget of ONE lsearchk_t::get call ----------
+   `cnt` = number of state.update(x0 + t*d) calls (each = one function_t::vgrad WITH gradient: 1 fcall + 1 gcall), for
+   every probe oracle (deterministic or not), all parameters, every max_iterations n >= 1:
+   2n for the `*0.3` / `*3` loops of get() + do_get: backtrack n, lemarechal n-1, fletcher (n-1) + n (bracketing + one zoom),
+   morethuente n, cgdescent 7n+1 (the mutable m_max_iterations is decremented once per evaluation of bracket()/updateU()
+   except the last one of each updateU() call; the main loop makes up to three move+update per iteration) *)
+Theorem C07_evaluations_bounded : forall phi prm p0 a t0,
+  (0 < maxit prm)%Z ->
+  (0 <= cnt (rs (ls_get phi prm p0 a t0)) <= ls_bound a (maxit prm))%Z.
+Proof. exact ls_get_cnt. Qed.
+Print Assumptions C07_evaluations_bounded.
+
+Theorem C07_evaluation_bound_values : forall n,
+  (ls_bound Backtrack n = 3 * n /\ ls_bound Lemarechal n = 3 * n - 1 /\ ls_bound Fletcher n = 4 * n - 1 /\
+   ls_bound MoreThuente n = 3 * n /\ ls_bound CGDescent n = 9 * n + 1)%Z.
+Proof. exact ls_bound_values. Qed.
+Print Assumptions C07_evaluation_bound_values.
+
+(* with the registered default of lsearchk::max_iterations (translated from lsearchk.cpp: 128) one line search costs at most
+   384 / 383 / 511 / 384 / 1153 evaluations, i.e. 768 / 766 / 1022 / 768 / 2306 in solver_t's unit fcalls + gcalls *)
+Theorem C07_evaluations_bounded_default : forall phi prm p0 a t0,
+  maxit prm = default_max_iterations ->
+  (0 <= cnt (rs (ls_get phi prm p0 a t0)) <=
+   match a with Backtrack => 384 | Lemarechal => 383 | Fletcher => 511 | MoreThuente => 384 | CGDescent => 1153 end)%Z.
+Proof. exact ls_get_cnt_default. Qed.
+Print Assumptions C07_evaluations_bounded_default.
+
+Theorem C07_default_max_iterations : default_max_iterations = 128%Z /\ min_max_iterations = 1%Z.
+Proof. exact default_max_iterations_value. Qed.
+Print Assumptions C07_default_max_iterations.
+
+(* the bound is attained by backtrack (384 = 3*128) and lemarechal (383) on an objective whose first 127 trial points are
+   invalid and which is flat afterwards; a table-driven oracle drives cgdescent to 62 of the 91 = 9*10+1 evaluations *)
+Theorem C07_evaluation_bound_witnesses :
+  cnt (rs (ls_get (phi_flat_after 128) (prm_default 128) p0_zero Backtrack fone)) = 384%Z /\
+  cnt (rs (ls_get (phi_flat_after 128) (prm_default 128) p0_zero Lemarechal fone)) = 383%Z /\
+  cnt (rs (ls_get (phi_table cg_costly_table) (prm_default 10) p0_zero CGDescent fone)) = 62%Z.
+Proof. exact s_evaluation_bound_witnesses. Qed.
+Print Assumptions C07_evaluation_bound_witnesses.
 
 (* ---------- statements that are FALSE of the faithful model (kept visible in C07_Statements.v; searched on the
    implementation) ---------- *)
